@@ -352,8 +352,10 @@ def direct_batch(case, obs):
         if pc is None:
             return [f"{where}: no tree after the call"]
         if pc["sig"] != sig or pc["ref"] != rc:
+            diff = next((f"row {j}: {a} vs expected {b}" for j, (a, b) in enumerate(zip(pc["sig"], sig)) if a != b),
+                        f"{len(pc['sig'])} rows vs expected {len(sig)}")
             return [f"{where}: the reference tree is not the kdq-tree of the current reference ({why}): "
-                    f"reference leaf counts {pc['ref']}, expected {rc}"]
+                    f"reference leaf counts {pc['ref']}, expected {rc}; first differing public row (name, depth, count): {diff}"]
         if row["has_crit"] and not feq(row["crit"], crit):
             return [f"{where}: _critical_dist = {row['crit']!r}; the bootstrap bound for reference counts {rc}, sample size {sum(rc)}, "
                     f"alpha={p['alpha']} is {crit!r}"]
@@ -592,6 +594,67 @@ def gen_stream(ctx, rng, k, fam):
     return {"kind": "stream", "fam": fam, "params": params, "m": m, "data": data[:n], "seed": (ctx.seed + 31 * k) % 100000}
 
 
+def gen_stream_steered(ctx, rng, k):
+    """closed-loop generation with one step of look-ahead on a copy of the running detector: among a few candidate samples
+    (shifted, re-drawn reference samples, fresh base samples) the next one is chosen so that the divergence hugs the bound and
+    follows a target pattern: above it for exactly (alarm length - 1) evaluated samples, back under it for 1-2 samples (the
+    counter must restart), ... , finally above it until the alarm"""
+    import copy
+    r = ctx.rng
+    w = r.choice([10, 10, 20])
+    pers = r.choice([0.2, 0.3, 0.5, 1.0])
+    m = r.choice([1, 2])
+    params = {"window_size": w, "persistence": pers, "alpha": r.choice([0.05, 0.2, 0.5]), "bootstrap_samples": r.choice([5, 20]),
+              "count_ubound": r.choice([2, 3, 5])}
+    case = {"kind": "stream", "fam": "steered", "params": params, "m": m, "data": [], "seed": (ctx.seed + 53 * k) % 100000}
+    need = int(math.floor(pers * w)) + 1
+    det = KdqTreeStreaming(window_size=w, persistence=pers, alpha=params["alpha"], bootstrap_samples=params["bootstrap_samples"],
+                           count_ubound=params["count_ubound"])
+    n = r.randint(8 * w, 14 * w)
+    def pattern():
+        out = []
+        for _ in range(r.randint(1, 3)):
+            out += ["A"] * r.choice([need - 1, need - 1, max(1, need // 2)]) + ["b"] * r.choice([1, 1, 2])
+        return out + ["A"] * need
+    ep, want = 0, pattern()
+    for i in range(n):
+        kk = i - ep
+        seed = seed_of(case, i)
+        if kk < 2 * w - 1 or not want:
+            row = rng.normal(size=m)
+        else:
+            cands = []
+            for sh in (-5.0, 4.0):
+                c = rng.normal(size=m) * 0.3
+                c[0] += sh
+                cands.append(c)
+            for _ in range(3):
+                cands.append(np.array(case["data"][ep + int(rng.integers(0, w))], dtype=float))
+            cands.append(rng.normal(size=m))
+            best = None
+            for c in cands:
+                d2 = copy.deepcopy(det)
+                np.random.seed(seed)
+                d2.update(np.array([[clean(v) for v in c]], dtype=float))
+                td, cr = getattr(d2, "_test_dist", None), getattr(d2, "_critical_dist", None)
+                if td is None or cr is None:
+                    continue
+                sym = "A" if td > cr else "b"
+                key = (sym == want[0], -abs(td - cr))       # the wanted side of the bound, as close to it as possible
+                if best is None or key > best[0]:
+                    best = (key, c, sym)
+            row = cands[-1] if best is None else best[1]
+            if best is not None and best[2] == want[0]:
+                want = want[1:]
+        row = [clean(v) for v in row]
+        np.random.seed(seed)
+        det.update(np.array([row], dtype=float))
+        case["data"].append(row)
+        if det.drift_state == "drift":
+            ep, want = i + 1, pattern()
+    return case
+
+
 def gen_batch(ctx, rng, k, fam="main"):
     r = ctx.rng
     m = r.choice([1, 1, 2, 3])
@@ -644,10 +707,20 @@ def gen_cases(ctx):
         st[key] = {}
     def bump(key, v):
         st[key][str(v)] = st[key].get(str(v), 0) + 1
-    ns = ctx.scale(36, 500)
+    # hand-made: persistence * window_size is a float product next to an integer (0.58 * 50 = 28.999999999999996: the 29th
+    # sample in a row alarms; 0.28 * 25 = 7.000000000000001 and 0.2 * 10 = 2.0: the 8th / 3rd does), under a sustained change
+    for k, (w, pers) in enumerate([(50, 0.58), (25, 0.28), (10, 0.2)]):
+        base = rng.normal(size=(2 * w + 3, 1))
+        shifted = rng.normal(size=(3 * w, 1)) + 6.0
+        data = [[clean(v) for v in row] for row in np.vstack([base, shifted])]
+        cases.append({"kind": "stream", "fam": "hand", "m": 1, "data": data, "seed": 7 + k,
+                      "params": {"window_size": w, "persistence": pers, "alpha": 0.2, "bootstrap_samples": 5, "count_ubound": 8}})
+    ns = ctx.scale(30, 420)
     for k in range(ns):
         fam = "tiny" if k % 6 in (1, 4) else "corner" if k % 6 == 5 else "main"
         cases.append(gen_stream(ctx, rng, k, fam))
+    for k in range(ctx.scale(8, 120)):
+        cases.append(gen_stream_steered(ctx, rng, k))
     for k in range(ctx.scale(26, 360)):
         cases.append(gen_batch(ctx, rng, k, "tiny" if k % 4 == 3 else "main"))
     for k in range(ctx.scale(4, 40)):
